@@ -226,6 +226,33 @@ func (x *Exec) analyze() (err error) {
 		env.skolems = x.preSk
 		// the function's own contract calls, most recent per callee: called_<name>, call_<name>_arg<i>, call_<name>_r<i>
 		x.bindCallRecords(o.st, x.fn, env.vars, o.st.topCalls)
+		for k, v := range o.st.exitVals {
+			env.vars[k] = v
+		}
+		for n, v := range o.st.exitNames {
+			if _, taken := env.vars[n]; !taken {
+				env.vars[n] = v
+			}
+		}
+		env.exitMem = o.st.exitMem
+		// memory-resident locals (address-taken or escaping variables) by name, read in the final memory,
+		// unless a parameter or result has that name
+		for n, cell := range x.localCells(o.st, x.fn) {
+			if _, taken := env.vars[n]; taken {
+				continue
+			}
+			if env.cells == nil {
+				env.cells = map[string]V{}
+			}
+			env.cells[n] = cell
+		}
+		for _, ld := range x.loopInfoFor(x.fn).list {
+			if o.st.loopDone[ld.ordinal] {
+				env.vars[fmt.Sprintf("loopdone_%d", ld.ordinal)] = vBool("true")
+			} else {
+				env.vars[fmt.Sprintf("loopdone_%d", ld.ordinal)] = vBool("false")
+			}
+		}
 		// the witnesses chosen at entry for this function's quantified post-conditions join the pool
 		// only now: every quantified assumption made on the path (preconditions, callee post-conditions,
 		// loop invariants) is instantiated at them here, and no proof along the way carried them
